@@ -1,6 +1,795 @@
-//! C20 -- monitor (to be written)
-use crate::fw::ctx;
+//! C20 -- detection webs returned for a Pauli diagram are valid, independent and complete,
+//! whatever the vertex numbering; inputs/outputs are restored.
+//!
+//! Events: each generated diagram (Z/X spiders with phase 0 or pi, plain edges, 0-4
+//! boundaries attached to spiders) is built in `hash_graph::Graph` under several vertex
+//! numberings (boundaries first / last / interleaved / random permutation / random ids
+//! with gaps / boundaries first with shuffled spiders) and the REAL
+//! `quizx::detection_webs::detection_webs` is run on every build.
+//!
+//! Oracle (independent of quizx, `oracle::f2small` for the F2 algebra):
+//! * the harness computes its own bipartite form of the diagram description (every
+//!   same-colour spider-spider edge subdivided by one phase-free spider of the other
+//!   colour) -- the "canonical diagram" with canonical edge labels; the diagram as left
+//!   by the routine must be exactly this diagram under the label map (original ids ->
+//!   description indices, new vertices -> the edge they subdivide). All checks on webs
+//!   are made on that left-behind diagram through this label map;
+//! * web space = solutions of the EDGE-based linear system on the canonical diagram:
+//!   unknowns x_e, z_e per edge; boundary edges: x_e = z_e = 0; Z spider: all incident
+//!   x_e equal, sum of incident z_e = 0; X spider: all incident z_e equal, sum of
+//!   incident x_e = 0. dim = 2|E| - rank. The same system on the ORIGINAL (not
+//!   subdivided) diagram must give the same dimension (oracle cross-check), and for
+//!   <= 12 spiders a brute-force enumeration of all firing sets of the canonical diagram
+//!   must give 2^dim distinct valid webs (oracle cross-check + membership test);
+//! * every returned web: marks only existing edges, marks no boundary edge, satisfies
+//!   the spider constraints; the returned webs are linearly independent (rank of their
+//!   2|E|-bit vectors), their number equals dim, each lies in the brute-force set;
+//!   the spans obtained under different numberings coincide in canonical labels;
+//!   `inputs()` / `outputs()` afterwards equal the lists before the call.
+//!
+//! Reading fixed here: "own colour's Pauli" of a spider is the Pauli that the code draws
+//! in the spider's colour and that the spider's firing generates: Pauli X (green) for a
+//! Z (green) spider, Pauli Z (red) for an X (red) spider; Y counts as both. This is the
+//! stabiliser condition of a Pauli-phase spider (Z spider: X on all legs or none, Z on an
+//! even number of legs) and is the reading under which the implemented convention
+//! (`pw`: fired Z spider -> Pauli::X on its legs) is correct.
+//!
+//! Only the first failing check of one (diagram, numbering) execution is reported, in the
+//! order panic, left-behind diagram, web validity, independence, count, membership, so
+//! that one root cause gives one signature. The signature's third field states the input
+//! feature relevant for the failure class: for linear dependence whether the diagram has a
+//! spider without legs, for everything else whether some boundary has a larger id than
+//! some spider.
+
+use crate::fw::{ctx, guarded, par_cases, Caught};
+use crate::gen::prng::{hash_bytes, Rng};
+use crate::oracle::f2small::{self as f2, Row};
+use quizx::detection_webs::{detection_webs, Pauli};
+use quizx::graph::{EType, GraphLike, VData, VType, V};
+use quizx::hash_graph::Graph;
+use quizx::phase::Phase;
+use serde_json::{json, Value};
+use std::collections::{HashMap, HashSet};
+
+fn ph_zero() -> Phase {
+    Phase::new(num::Rational64::new(0, 1))
+}
+fn ph_pi() -> Phase {
+    Phase::new(num::Rational64::new(1, 1))
+}
+
+#[derive(Clone, Debug)]
+pub struct WDesc {
+    /// (is_x, phase is pi)
+    pub spiders: Vec<(bool, bool)>,
+    /// plain edges between spiders i < j, at most one per pair
+    pub edges: Vec<(usize, usize)>,
+    /// (spider the boundary is attached to, is_input)
+    pub bnds: Vec<(usize, bool)>,
+}
+
+impl WDesc {
+    fn ns(&self) -> usize {
+        self.spiders.len()
+    }
+    fn nb(&self) -> usize {
+        self.bnds.len()
+    }
+    fn to_json(&self) -> Value {
+        json!({
+            "spiders": self.spiders.iter().map(|s| json!([if s.0 { "X" } else { "Z" }, if s.1 { "pi" } else { "0" }])).collect::<Vec<_>>(),
+            "plain_edges_between_spiders": self.edges,
+            "boundaries": self.bnds.iter().map(|b| json!([b.0, if b.1 { "input" } else { "output" }])).collect::<Vec<_>>(),
+            "note": "abstract vertex k < #spiders is spider k; abstract vertex #spiders + j is boundary j",
+        })
+    }
+    fn hash(&self) -> u64 {
+        hash_bytes(format!("{self:?}").as_bytes())
+    }
+    fn has_isolated_spider(&self) -> bool {
+        (0..self.ns()).any(|s| !self.edges.iter().any(|e| e.0 == s || e.1 == s) && !self.bnds.iter().any(|b| b.0 == s))
+    }
+}
+
+/// plain graph with vertex kinds 0 = boundary, 1 = Z, 2 = X
+#[derive(Clone, Debug)]
+struct PG {
+    kind: Vec<u8>,
+    edges: Vec<(usize, usize)>,
+}
+
+impl PG {
+    fn incident(&self, v: usize) -> Vec<usize> {
+        self.edges.iter().enumerate().filter(|(_, e)| e.0 == v || e.1 == v).map(|(i, _)| i).collect()
+    }
+    fn is_boundary_edge(&self, e: usize) -> bool {
+        let (a, b) = self.edges[e];
+        self.kind[a] == 0 || self.kind[b] == 0
+    }
+    /// equations of the edge-based system; unknown 2e = x_e, 2e+1 = z_e
+    fn equations(&self) -> (Vec<Row>, usize) {
+        let cols = 2 * self.edges.len();
+        let mut eqs: Vec<Row> = vec![];
+        for e in 0..self.edges.len() {
+            if self.is_boundary_edge(e) {
+                for k in 0..2 {
+                    let mut r = f2::zero_row(cols);
+                    f2::set(&mut r, 2 * e + k, true);
+                    eqs.push(r);
+                }
+            }
+        }
+        for v in 0..self.kind.len() {
+            if self.kind[v] == 0 {
+                continue;
+            }
+            let inc = self.incident(v);
+            // own = bit offset of the Pauli of the spider's own colour (X for a Z spider)
+            let (own, other) = if self.kind[v] == 1 { (0, 1) } else { (1, 0) };
+            for w in inc.windows(2) {
+                let mut r = f2::zero_row(cols);
+                f2::set(&mut r, 2 * w[0] + own, true);
+                f2::set(&mut r, 2 * w[1] + own, true);
+                eqs.push(r);
+            }
+            if !inc.is_empty() {
+                let mut r = f2::zero_row(cols);
+                for &e in &inc {
+                    f2::set(&mut r, 2 * e + other, true);
+                }
+                eqs.push(r);
+            }
+        }
+        (eqs, cols)
+    }
+    fn web_space_dim(&self) -> usize {
+        let (eqs, cols) = self.equations();
+        f2::nullity(&eqs, cols)
+    }
+    /// check the defining constraints directly (not through the equations above)
+    fn check_web(&self, w: &Row) -> Result<(), (&'static str, String)> {
+        for e in 0..self.edges.len() {
+            if self.is_boundary_edge(e) && (f2::get(w, 2 * e) || f2::get(w, 2 * e + 1)) {
+                return Err(("boundary-edge-marked", format!("canonical edge {:?}", self.edges[e])));
+            }
+        }
+        for v in 0..self.kind.len() {
+            if self.kind[v] == 0 {
+                continue;
+            }
+            let inc = self.incident(v);
+            let (own, other) = if self.kind[v] == 1 { (0, 1) } else { (1, 0) };
+            let n_own = inc.iter().filter(|&&e| f2::get(w, 2 * e + own)).count();
+            let n_other = inc.iter().filter(|&&e| f2::get(w, 2 * e + other)).count();
+            if n_own != 0 && n_own != inc.len() {
+                return Err(("own-colour-pauli-neither-all-nor-none", format!("canonical vertex {v}: {n_own} of {} legs", inc.len())));
+            }
+            if n_other % 2 != 0 {
+                return Err(("other-colour-pauli-on-odd-number-of-legs", format!("canonical vertex {v}: {n_other} of {} legs", inc.len())));
+            }
+        }
+        Ok(())
+    }
+}
+
+/// The harness's own bipartite form and the label bookkeeping.
+struct Canon {
+    pg: PG,
+    /// same-colour spider edge (i<j) -> canonical vertex of the subdividing spider
+    mid_of: HashMap<(usize, usize), usize>,
+    edge_index: HashMap<(usize, usize), usize>,
+    original: PG,
+}
+
+fn canon(d: &WDesc) -> Canon {
+    let (ns, nb) = (d.ns(), d.nb());
+    let mut kind: Vec<u8> = d.spiders.iter().map(|s| if s.0 { 2 } else { 1 }).collect();
+    kind.extend(std::iter::repeat(0u8).take(nb));
+    let mut original = PG { kind: kind.clone(), edges: d.edges.clone() };
+    let mut edges: Vec<(usize, usize)> = vec![];
+    let mut mid_of = HashMap::new();
+    for &(i, j) in &d.edges {
+        if d.spiders[i].0 == d.spiders[j].0 {
+            let m = kind.len();
+            kind.push(if d.spiders[i].0 { 1 } else { 2 });
+            mid_of.insert((i, j), m);
+            edges.push((i, m));
+            edges.push((j, m));
+        } else {
+            edges.push((i, j));
+        }
+    }
+    for (k, b) in d.bnds.iter().enumerate() {
+        edges.push((b.0, ns + k));
+        original.edges.push((b.0, ns + k));
+    }
+    let edge_index = edges.iter().enumerate().map(|(i, &(a, b))| ((a.min(b), a.max(b)), i)).collect();
+    Canon { pg: PG { kind, edges }, mid_of, edge_index, original }
+}
+
+/// all webs generated by firing sets of the (bipartite) canonical diagram that satisfy the constraints
+fn brute_force_webs(pg: &PG) -> HashSet<Row> {
+    let spiders: Vec<usize> = (0..pg.kind.len()).filter(|&v| pg.kind[v] != 0).collect();
+    let cols = 2 * pg.edges.len();
+    let mut out = HashSet::new();
+    for mask in 0..(1usize << spiders.len()) {
+        let mut fired = vec![false; pg.kind.len()];
+        for (i, &s) in spiders.iter().enumerate() {
+            fired[s] = (mask >> i) & 1 == 1;
+        }
+        let mut w = f2::zero_row(cols);
+        for (e, &(a, b)) in pg.edges.iter().enumerate() {
+            for v in [a, b] {
+                if fired[v] {
+                    // a fired Z spider puts Pauli X on its legs, a fired X spider Pauli Z
+                    f2::flip(&mut w, 2 * e + if pg.kind[v] == 1 { 0 } else { 1 });
+                }
+            }
+        }
+        if pg.check_web(&w).is_ok() {
+            out.insert(w);
+        }
+    }
+    out
+}
+
+// --------------------------------------------------------------------------------------
+// numberings and builds
+// --------------------------------------------------------------------------------------
+
+const NUMBERINGS: [&str; 6] = ["boundaries-first", "boundaries-last", "interleaved", "random-permutation", "random-ids-with-gaps", "boundaries-first-spiders-shuffled"];
+
+/// ids[abstract vertex] = vertex id in the build
+fn numbering(which: usize, d: &WDesc, r: &mut Rng) -> Vec<V> {
+    let (ns, nb) = (d.ns(), d.nb());
+    let n = ns + nb;
+    let mut ids = vec![0usize; n];
+    match which {
+        0 => {
+            for k in 0..nb {
+                ids[ns + k] = k;
+            }
+            for s in 0..ns {
+                ids[s] = nb + s;
+            }
+        }
+        1 => {
+            for (a, id) in ids.iter_mut().enumerate() {
+                *id = a;
+            }
+        }
+        2 => {
+            // s0 b0 s1 b1 ...
+            let mut order = vec![];
+            for k in 0..ns.max(nb) {
+                if k < ns {
+                    order.push(k);
+                }
+                if k < nb {
+                    order.push(ns + k);
+                }
+            }
+            for (id, a) in order.into_iter().enumerate() {
+                ids[a] = id;
+            }
+        }
+        3 => {
+            let mut order: Vec<usize> = (0..n).collect();
+            r.shuffle(&mut order);
+            for (id, a) in order.into_iter().enumerate() {
+                ids[a] = id;
+            }
+        }
+        4 => {
+            let mut pool: Vec<usize> = (0..(3 * n + 2)).collect();
+            r.shuffle(&mut pool);
+            ids[..n].copy_from_slice(&pool[..n]);
+        }
+        _ => {
+            for k in 0..nb {
+                ids[ns + k] = k;
+            }
+            let mut order: Vec<usize> = (0..ns).collect();
+            r.shuffle(&mut order);
+            for (pos, s) in order.into_iter().enumerate() {
+                ids[s] = nb + pos;
+            }
+        }
+    }
+    ids
+}
+
+fn build(d: &WDesc, ids: &[V]) -> Graph {
+    let ns = d.ns();
+    let n = ns + d.nb();
+    let mut g = Graph::new();
+    let mut order: Vec<usize> = (0..n).collect();
+    order.sort_by_key(|&a| ids[a]);
+    let contiguous = order.iter().enumerate().all(|(k, &a)| ids[a] == k);
+    for &a in &order {
+        let data = if a < ns {
+            let (is_x, pi) = d.spiders[a];
+            VData { ty: if is_x { VType::X } else { VType::Z }, phase: if pi { ph_pi() } else { ph_zero() }, ..Default::default() }
+        } else {
+            VData { ty: VType::B, ..Default::default() }
+        };
+        if contiguous {
+            let v = g.add_vertex_with_data(data);
+            assert_eq!(v, ids[a], "harness: unexpected vertex id from add_vertex_with_data");
+        } else {
+            g.add_named_vertex_with_data(ids[a], data).expect("harness: named vertex insertion failed");
+        }
+    }
+    for &(i, j) in &d.edges {
+        g.add_edge(ids[i], ids[j]);
+    }
+    let (mut ins, mut outs) = (vec![], vec![]);
+    for (k, b) in d.bnds.iter().enumerate() {
+        g.add_edge(ids[b.0], ids[ns + k]);
+        if b.1 {
+            ins.push(ids[ns + k]);
+        } else {
+            outs.push(ids[ns + k]);
+        }
+    }
+    g.set_inputs(ins);
+    g.set_outputs(outs);
+    g
+}
+
+fn graph_dump(g: &Graph) -> Value {
+    let mut vs: Vec<(V, String, String)> = g.vertices().map(|v| (v, format!("{:?}", g.vertex_type(v)), format!("{}", g.phase(v).to_rational()))).collect();
+    vs.sort();
+    let mut es: Vec<(V, V, String)> = g.edges().map(|(a, b, t)| (a.min(b), a.max(b), format!("{t:?}"))).collect();
+    es.sort();
+    json!({"vertices": vs, "edges": es, "inputs": g.inputs(), "outputs": g.outputs()})
+}
+
+/// Map the diagram left by the routine onto the canonical diagram. Returns
+/// id -> canonical vertex, or a (class, explanation) pair.
+fn map_left_diagram(g: &Graph, d: &WDesc, cz: &Canon, ids: &[V]) -> Result<HashMap<V, usize>, (&'static str, String)> {
+    let ns = d.ns();
+    let mut to_canon: HashMap<V, usize> = HashMap::new();
+    for (a, &id) in ids.iter().enumerate() {
+        if !g.contains_vertex(id) {
+            return Err(("original-vertex-removed", format!("vertex {id}")));
+        }
+        let expect_ty = match cz.pg.kind[a] {
+            0 => VType::B,
+            1 => VType::Z,
+            _ => VType::X,
+        };
+        let expect_ph = if a < ns && d.spiders[a].1 { ph_pi() } else { ph_zero() };
+        if g.vertex_type(id) != expect_ty || g.phase(id) != expect_ph {
+            return Err(("original-vertex-changed", format!("vertex {id}: {:?} phase {}", g.vertex_type(id), g.phase(id).to_rational())));
+        }
+        to_canon.insert(id, a);
+    }
+    let mut used_mids = HashSet::new();
+    let news: Vec<V> = g.vertices().filter(|v| !to_canon.contains_key(v)).collect();
+    for m in news {
+        let nb: Vec<V> = g.neighbors(m).collect();
+        if nb.len() != 2 {
+            return Err(("new-vertex-degree", format!("new vertex {m} has {} neighbours", nb.len())));
+        }
+        let (Some(&a), Some(&b)) = (to_canon.get(&nb[0]), to_canon.get(&nb[1])) else {
+            return Err(("new-vertex-next-to-new-vertex", format!("new vertex {m}")));
+        };
+        let key = (a.min(b), a.max(b));
+        let Some(&cm) = cz.mid_of.get(&key) else {
+            return Err(("new-vertex-not-on-a-same-colour-edge", format!("new vertex {m} between ids {} and {}", nb[0], nb[1])));
+        };
+        let expect_ty = if cz.pg.kind[cm] == 1 { VType::Z } else { VType::X };
+        if g.vertex_type(m) != expect_ty || g.phase(m) != ph_zero() {
+            return Err(("new-vertex-kind-or-phase", format!("new vertex {m}: {:?} phase {}", g.vertex_type(m), g.phase(m).to_rational())));
+        }
+        if !used_mids.insert(cm) {
+            return Err(("edge-subdivided-twice", format!("new vertex {m}")));
+        }
+        to_canon.insert(m, cm);
+    }
+    let mut seen = HashSet::new();
+    for (s, t, et) in g.edges() {
+        if et != EType::N {
+            return Err(("edge-type-changed", format!("edge ({s},{t}) is {et:?}")));
+        }
+        let (a, b) = (to_canon[&s], to_canon[&t]);
+        match cz.edge_index.get(&(a.min(b), a.max(b))) {
+            Some(&e) => {
+                seen.insert(e);
+            }
+            None => return Err(("unexpected-edge", format!("edge ({s},{t})"))),
+        }
+    }
+    if seen.len() != cz.pg.edges.len() || g.num_edges() != cz.pg.edges.len() {
+        return Err(("edge-missing", format!("{} of {} expected edges present", seen.len(), cz.pg.edges.len())));
+    }
+    Ok(to_canon)
+}
+
+/// Third signature field for every failure class that can depend on the node order:
+/// does some boundary have a larger id than some spider?
+fn cond_numbering(d: &WDesc, ids: &[V]) -> &'static str {
+    let ns = d.ns();
+    let bnd_max = ids[ns..].iter().max();
+    let sp_min = ids[..ns].iter().min();
+    let bnd_lowest = match (bnd_max, sp_min) {
+        (Some(b), Some(s)) => b < s,
+        _ => true,
+    };
+    if bnd_lowest {
+        "boundaries-have-the-lowest-ids"
+    } else {
+        "boundary-id-above-a-spider-id"
+    }
+}
+
+/// Third signature field for linear dependence (wrong whatever the numbering is): does the
+/// diagram contain a spider without legs?
+fn cond_isolated(d: &WDesc) -> &'static str {
+    if d.has_isolated_spider() {
+        "isolated-spider"
+    } else {
+        "no-isolated-spider"
+    }
+}
+
+/// Run the routine on one build. Returns the canonical web rows when every check passed.
+#[allow(clippy::too_many_arguments)]
+fn run_one(family: &'static str, index: u64, d: &WDesc, cz: &Canon, dim: usize, bf: Option<&HashSet<Row>>, which: usize, ids: &[V]) -> Option<Vec<Row>> {
+    let c = ctx();
+    let name = NUMBERINGS[which];
+    let cond = cond_numbering(d, ids);
+    let cond_iso = cond_isolated(d);
+    c.count(&format!("run:{name}"), 1);
+    let mut g = build(d, ids);
+    let before = graph_dump(&g);
+    let (ins0, outs0) = (g.inputs().clone(), g.outputs().clone());
+    let detail = |what: &str, extra: Value| {
+        json!({"what": what, "diagram": d.to_json(), "numbering": name, "vertex_id_of_abstract_vertex": ids, "graph_before": before, "extra": extra,
+               "expected_web_space_dimension": dim})
+    };
+    let res = guarded(|| detection_webs(&mut g));
+    let webs = match res {
+        Ok(w) => w,
+        Err(Caught::Oracle(m)) => {
+            c.inconclusive("oracle-error", json!({"msg": m}));
+            return None;
+        }
+        Err(e) => {
+            c.count(&format!("panic:{name}"), 1);
+            c.violation(&format!("detection_webs|panic:{}|{cond}", e.site()), family, index, detail("panic", json!({"panic": e.text(), "graph_after": graph_dump(&g)})));
+            return None;
+        }
+    };
+    let after = graph_dump(&g);
+    // inputs / outputs restored (independent of the other checks)
+    let io_ok = *g.inputs() == ins0 && *g.outputs() == outs0;
+    if !io_ok {
+        c.violation(
+            &format!("detection_webs|inputs-outputs-not-restored|{cond}"),
+            family,
+            index,
+            detail("inputs/outputs differ after the call", json!({"expected": {"inputs": ins0, "outputs": outs0}, "observed": {"inputs": g.inputs(), "outputs": g.outputs()}})),
+        );
+    }
+    // the diagram as left by the routine
+    let to_canon = match map_left_diagram(&g, d, cz, ids) {
+        Ok(m) => m,
+        Err((class, why)) => {
+            c.violation(&format!("make_bipartite|left-diagram-is-not-the-subdivided-input:{class}|{cond}"), family, index, detail("diagram left by the routine", json!({"why": why, "graph_after": after})));
+            return None;
+        }
+    };
+    c.count("new-vertices-inserted", (g.num_vertices() - ids.len()) as u64);
+    // webs -> canonical bit rows
+    let cols = 2 * cz.pg.edges.len();
+    let mut rows: Vec<Row> = vec![];
+    let web_json = |w: &quizx::detection_webs::PauliWeb| {
+        let mut v: Vec<(usize, usize, String)> = w.edge_operators.iter().map(|(k, p)| (k.0, k.1, format!("{p:?}"))).collect();
+        v.sort();
+        json!(v)
+    };
+    let all_webs = || json!(webs.iter().map(&web_json).collect::<Vec<_>>());
+    for w in &webs {
+        let mut row = f2::zero_row(cols);
+        for (&(a, b), p) in w.edge_operators.iter() {
+            let e = match (to_canon.get(&a), to_canon.get(&b)) {
+                (Some(&ca), Some(&cb)) => cz.edge_index.get(&(ca.min(cb), ca.max(cb))).copied(),
+                _ => None,
+            };
+            let Some(e) = e else {
+                c.violation(
+                    &format!("detection_webs|web-marks-a-non-edge|{cond}"),
+                    family,
+                    index,
+                    detail("web marks a pair of vertices that is not an edge", json!({"pair": [a, b], "web": web_json(w), "graph_after": after})),
+                );
+                return None;
+            };
+            match p {
+                Pauli::X => f2::set(&mut row, 2 * e, true),
+                Pauli::Z => f2::set(&mut row, 2 * e + 1, true),
+                Pauli::Y => {
+                    f2::set(&mut row, 2 * e, true);
+                    f2::set(&mut row, 2 * e + 1, true);
+                }
+            }
+            c.count(&format!("marks:{p:?}"), 1);
+        }
+        if let Err((class, why)) = cz.pg.check_web(&row) {
+            c.violation(
+                &format!("detection_webs|invalid-web:{class}|{cond}"),
+                family,
+                index,
+                detail("returned web violates the defining constraints", json!({"why": why, "web": web_json(w), "all_webs": all_webs(), "graph_after": after})),
+            );
+            return None;
+        }
+        rows.push(row);
+    }
+    c.count("webs-checked", rows.len() as u64);
+    let rk = f2::rank(&rows, cols);
+    if rk != rows.len() {
+        let empties = rows.iter().filter(|r| f2::is_zero(r)).count();
+        c.violation(
+            &format!("detection_webs|webs-linearly-dependent:{}|{cond_iso}", if empties > 0 { "empty-web-returned" } else { "non-trivial-relation" }),
+            family,
+            index,
+            detail("returned webs are not linearly independent over F2", json!({"returned": rows.len(), "rank": rk, "empty_webs": empties, "webs": all_webs(), "graph_after": after})),
+        );
+        return None;
+    }
+    if rows.len() != dim {
+        c.violation(
+            &format!("detection_webs|number-of-webs-differs-from-dimension:{}|{cond}", if rows.len() < dim { "too-few" } else { "too-many" }),
+            family,
+            index,
+            detail("number of returned webs != dimension of the web space", json!({"returned": rows.len(), "expected": dim, "webs": all_webs(), "graph_after": after})),
+        );
+        return None;
+    }
+    if let Some(bf) = bf {
+        if let Some(bad) = rows.iter().position(|r| !bf.contains(r)) {
+            c.violation(
+                &format!("detection_webs|web-not-generated-by-any-valid-firing-set|{cond}"),
+                family,
+                index,
+                detail("web not in the brute-force set", json!({"web": web_json(&webs[bad]), "graph_after": after})),
+            );
+            return None;
+        }
+    }
+    c.count(&format!("held:{name}"), 1);
+    if io_ok {
+        Some(rows)
+    } else {
+        None
+    }
+}
+
+fn check_desc(family: &'static str, index: u64, d: &WDesc, r: &mut Rng) {
+    let c = ctx();
+    let cz = canon(d);
+    let dim = cz.pg.web_space_dim();
+    // oracle cross-checks (failures are harness errors, never verdicts)
+    let dim_orig = cz.original.web_space_dim();
+    if dim != dim_orig {
+        c.harness_error(&format!("C20 oracle: edge system dimension differs between original ({dim_orig}) and subdivided ({dim}) diagram: {:?}", d));
+        return;
+    }
+    let nsp = cz.pg.kind.iter().filter(|&&k| k != 0).count();
+    let bf = if nsp <= 12 {
+        let set = brute_force_webs(&cz.pg);
+        if set.len() != 1usize << dim {
+            c.harness_error(&format!("C20 oracle: brute force found {} webs, edge system says 2^{dim}: {:?}", set.len(), d));
+            return;
+        }
+        c.count("brute-force-enumerations", 1);
+        Some(set)
+    } else {
+        c.count("brute-force-skipped(>12 spiders after subdivision)", 1);
+        None
+    };
+    c.count(&format!("dim={dim}"), 1);
+    c.maximum("max_dimension", dim as u64);
+    c.maximum("max_spiders", d.ns() as u64);
+    c.maximum("max_spiders_after_subdivision", nsp as u64);
+    c.count(&format!("boundaries={}", d.nb()), 1);
+    if d.has_isolated_spider() {
+        c.count("diagrams-with-isolated-spider", 1);
+    }
+    let cols = 2 * cz.pg.edges.len();
+    let mut spans: Vec<(usize, Vec<Row>)> = vec![];
+    for which in 0..NUMBERINGS.len() {
+        let ids = numbering(which, d, r);
+        if let Some(rows) = run_one(family, index, d, &cz, dim, bf.as_ref(), which, &ids) {
+            spans.push((which, rows));
+        }
+    }
+    for pair in spans.windows(2) {
+        c.count("span-comparisons", 1);
+        if !f2::same_span(&pair[0].1, &pair[1].1, cols) {
+            c.violation(
+                "detection_webs|span-depends-on-numbering",
+                family,
+                index,
+                json!({"diagram": d.to_json(), "numbering_a": NUMBERINGS[pair[0].0], "numbering_b": NUMBERINGS[pair[1].0], "expected_web_space_dimension": dim}),
+            );
+        }
+    }
+    let nontrivial = d.ns() >= 2 && dim >= 1;
+    c.case(family, if nontrivial { Some(d.hash()) } else { None });
+    c.evals(NUMBERINGS.len() as u64 - 1);
+    c.sample_n(5, || json!({"family": family, "index": index, "diagram": d.to_json(), "web_space_dimension": dim}));
+}
+
+// --------------------------------------------------------------------------------------
+// generators
+// --------------------------------------------------------------------------------------
+
+fn gen_desc(r: &mut Rng, max_s: usize, allow_isolated: bool) -> WDesc {
+    let ns = if r.chance(0.03) { 0 } else { 1 + r.below(max_s) };
+    let colour_mode = r.below(4);
+    let spiders: Vec<(bool, bool)> = (0..ns)
+        .map(|i| {
+            let is_x = match colour_mode {
+                0 => false,
+                1 => true,
+                2 => i % 2 == 1,
+                _ => r.chance(0.5),
+            };
+            (is_x, r.chance(0.3))
+        })
+        .collect();
+    let dens = *r.pick(&[0.15, 0.3, 0.5, 0.7]);
+    let mut edges = vec![];
+    for i in 0..ns {
+        for j in (i + 1)..ns {
+            if r.chance(dens) {
+                edges.push((i, j));
+            }
+        }
+    }
+    let nb = if ns == 0 { 0 } else { *r.pick(&[0usize, 0, 1, 1, 2, 2, 3, 4]) };
+    let mut bnds: Vec<(usize, bool)> = (0..nb).map(|_| (r.below(ns), r.chance(0.5))).collect();
+    let mut d = WDesc { spiders, edges, bnds: vec![] };
+    d.bnds.append(&mut bnds);
+    if !allow_isolated {
+        // give every leg-less spider an edge to some other spider (or a boundary when alone)
+        for s in 0..ns {
+            let lonely = !d.edges.iter().any(|e| e.0 == s || e.1 == s) && !d.bnds.iter().any(|b| b.0 == s);
+            if lonely {
+                if ns >= 2 {
+                    let mut t = r.below(ns - 1);
+                    if t >= s {
+                        t += 1;
+                    }
+                    d.edges.push((s.min(t), s.max(t)));
+                } else {
+                    d.bnds.push((s, r.chance(0.5)));
+                }
+            }
+        }
+        d.edges.sort();
+        d.edges.dedup();
+    }
+    d
+}
+
+/// all diagrams with `ns` spiders: colours x edge subsets x (<= 2 boundaries attached anywhere)
+fn tiny_space(ns: usize) -> usize {
+    let pairs = ns * ns.saturating_sub(1) / 2;
+    let bnd_cfgs = if ns == 0 { 1 } else { 1 + ns + ns * ns };
+    (1usize << ns) * (1usize << pairs) * bnd_cfgs
+}
+
+fn tiny_desc(ns: usize, mut idx: usize, r: &mut Rng) -> WDesc {
+    let pairs = ns * ns.saturating_sub(1) / 2;
+    let cmask = idx % (1 << ns);
+    idx /= 1 << ns;
+    let emask = idx % (1 << pairs);
+    idx /= 1 << pairs;
+    let spiders: Vec<(bool, bool)> = (0..ns).map(|i| ((cmask >> i) & 1 == 1, r.chance(0.3))).collect();
+    let mut edges = vec![];
+    let mut k = 0;
+    for i in 0..ns {
+        for j in (i + 1)..ns {
+            if (emask >> k) & 1 == 1 {
+                edges.push((i, j));
+            }
+            k += 1;
+        }
+    }
+    let mut bnds = vec![];
+    if ns > 0 {
+        if idx >= 1 && idx < 1 + ns {
+            bnds.push((idx - 1, r.chance(0.5)));
+        } else if idx >= 1 + ns {
+            let t = idx - 1 - ns;
+            bnds.push((t / ns, r.chance(0.5)));
+            bnds.push((t % ns, r.chance(0.5)));
+        }
+    }
+    WDesc { spiders, edges, bnds }
+}
+
+pub fn self_test() -> Result<(), String> {
+    f2::self_test()?;
+    // Z - Z (one plain edge, no boundary): after subdivision Z - X - Z, one web: X on both edges
+    let d = WDesc { spiders: vec![(false, false), (false, false)], edges: vec![(0, 1)], bnds: vec![] };
+    let cz = canon(&d);
+    if cz.pg.web_space_dim() != 1 || cz.original.web_space_dim() != 1 || brute_force_webs(&cz.pg).len() != 2 {
+        return Err("C20 oracle: Z-Z".into());
+    }
+    // Z - X: no web (each would need an even number of fired neighbours)
+    let d = WDesc { spiders: vec![(false, false), (true, false)], edges: vec![(0, 1)], bnds: vec![] };
+    let cz = canon(&d);
+    if cz.pg.web_space_dim() != 0 || brute_force_webs(&cz.pg).len() != 1 {
+        return Err("C20 oracle: Z-X".into());
+    }
+    // in - Z - out: the wire has no internal web
+    let d = WDesc { spiders: vec![(false, false)], edges: vec![], bnds: vec![(0, true), (0, false)] };
+    let cz = canon(&d);
+    if cz.pg.web_space_dim() != 0 {
+        return Err("C20 oracle: wire".into());
+    }
+    // 4-cycle Z X Z X: firing both Z spiders, or both X spiders: dimension 2
+    let d = WDesc { spiders: vec![(false, false), (true, false), (false, true), (true, false)], edges: vec![(0, 1), (1, 2), (2, 3), (0, 3)], bnds: vec![] };
+    let cz = canon(&d);
+    if cz.pg.web_space_dim() != 2 || brute_force_webs(&cz.pg).len() != 4 {
+        return Err("C20 oracle: 4-cycle".into());
+    }
+    // check_web rejects a boundary mark and an odd other-colour count
+    let d = WDesc { spiders: vec![(false, false), (true, false)], edges: vec![(0, 1)], bnds: vec![(0, true)] };
+    let cz = canon(&d);
+    let mut w = f2::zero_row(4);
+    f2::set(&mut w, 2 * cz.edge_index[&(0, 2)], true);
+    if cz.pg.check_web(&w).is_ok() {
+        return Err("C20 oracle: boundary mark accepted".into());
+    }
+    let mut w = f2::zero_row(4);
+    f2::set(&mut w, 2 * cz.edge_index[&(0, 1)] + 1, true);
+    if cz.pg.check_web(&w).is_ok() {
+        return Err("C20 oracle: odd Z count at a Z spider accepted".into());
+    }
+    Ok(())
+}
 
 pub fn run() {
-    ctx().harness_error("C20 monitor not implemented yet");
+    let c = ctx();
+    let t = c.tier;
+    if let Err(e) = self_test() {
+        c.harness_error(&format!("C20 oracle self-test failed: {e}"));
+        return;
+    }
+    c.set_rule(
+        "cases = diagrams (Z/X spiders, phases 0/pi, plain edges, 0-4 boundaries on spiders), each run under 6 vertex numberings (evaluations counts diagram x numbering executions); non-trivial when the diagram has >= 2 spiders and a web space of dimension >= 1; distinct = distinct diagram descriptions (64-bit hash)",
+    );
+    c.assume("own-colour Pauli of a Z spider is Pauli X (drawn green, generated by firing it), of an X spider Pauli Z; Y counts as both");
+    c.assume("web space = solution space of the edge-based F2 system on the subdivided (bipartite) diagram; cross-checked against the same system on the original diagram and, up to 12 spiders, against brute-force enumeration of firing sets");
+    c.assume("the diagram left by the routine must be the input with every same-colour edge subdivided once by a phase-free spider of the other colour");
+    // exhaustive tiny diagrams first, smallest first, so that recorded witnesses are small
+    let max_tiny = 4usize;
+    let mut tiny_total = 0usize;
+    for ns in 0..=max_tiny {
+        let space = tiny_space(ns);
+        tiny_total += space;
+        let fam: &'static str = ["tiny-exhaustive-0", "tiny-exhaustive-1", "tiny-exhaustive-2", "tiny-exhaustive-3", "tiny-exhaustive-4"][ns];
+        par_cases(fam, space, move |r, i| {
+            let d = tiny_desc(ns, i as usize, r);
+            check_desc(fam, i, &d, r);
+        });
+    }
+    c.extra("tiny_exhaustive", json!({"max_spiders": max_tiny, "space": tiny_total, "completed": !c.out_of_time(), "note": "shapes exhaustive; phases and input/output roles random"}));
+    let (ms, n) = t.pick((9usize, 3000usize), (11usize, 100_000usize));
+    par_cases("random-no-isolated", n, move |r, i| {
+        let d = gen_desc(r, ms, false);
+        check_desc("random-no-isolated", i, &d, r);
+    });
+    par_cases("random-with-isolated", n / 3, move |r, i| {
+        let d = gen_desc(r, ms, true);
+        check_desc("random-with-isolated", i, &d, r);
+    });
+    c.extra("exhaustive", json!(false));
 }
